@@ -2060,6 +2060,45 @@ func main() {
 						exec(fmt.Sprintf("expire %s %d 1", xty, xs))
 					}
 				}
+				// template: an expiry of slot xs is queued and BOTH racing Stores (under live duties) carry data of slot xs on
+				// different keys: whichever runs its expiry loop first deletes what has been written so far — the orders differ
+				// in the final maps, and an execution in which one Store's expiry loop ran between another Store's writes and
+				// its resolve matches neither
+				if rng.Chance(1, 6) && ty != "pro" {
+					xs := pick(sl)
+					if xs != dslot {
+						expiredOf[ty] = append(expiredOf[ty], xs)
+						exec(fmt.Sprintf("expire %s %d 1", ty, xs))
+						mk := func(i uint64) entry {
+							switch ty {
+							case "att":
+								return entry{kind: 'A', f: []uint64{1 + i, xs, 0, 1, 1, 1, xs, 1 + i, 1 + i}}
+							case "agg":
+								return entry{kind: 'G', f: []uint64{xs, 1 + i, i, 1}}
+							default:
+								return entry{kind: 'C', cons: []conE{{xs, i, 1, 1}}}
+							}
+						}
+						e1, e2 := mk(0), mk(1)
+						s2 := live()
+						for _, x := range []entry{e1, e2} {
+							for _, w := range x.writes() {
+								keys = append(keys, keyOp(w.key))
+							}
+						}
+						if fk := keyOp(e1.writes()[len(e1.writes())-1].key); fk[0] != "pubkey" && rng.Chance(1, 2) && run.NOps < a.N {
+							exec("await " + strings.Join(fk, " "))
+						}
+						subs := []string{fmt.Sprintf("store %s %d a %s", ty, dslot, e1.token()), fmt.Sprintf("store %s %d a %s", ty, s2, e2.token())}
+						if rng.Chance(1, 3) {
+							if fk := keyOp(e2.writes()[len(e2.writes())-1].key); fk[0] != "pubkey" {
+								subs = append(subs, "await "+strings.Join(fk, " "))
+							}
+						}
+						exec("race " + strings.Join(subs, " ; "))
+						continue
+					}
+				}
 				base := genEntry(entryKind[ty], dslot, ty)
 				var same []entry
 				for _, p := range pool {
